@@ -241,7 +241,15 @@ def content_of(T, v, rules, quirks=(), ine=False):
             return b'', False
         if b == 2:
             return bytes(real_bin_canon(m, e)), False
-        raise ValueError('decimal REAL: no canonical reference here')
+        if b != 10:
+            raise ValueError('REAL base %r' % (b,))
+        # X.690 11.3.1 (DER/CER; 8.5.8 lets BER use any ISO 6093 form): NR3, mantissa an integer without trailing zeros
+        # followed by the decimal mark, no leading zeros, no '+' before the mantissa, exponent without leading zeros and
+        # written "+0" when it is zero
+        while m % 10 == 0:
+            m //= 10
+            e += 1
+        return b'\x03' + ('%d.E%s%d' % (m, '+' if e == 0 else '', e)).encode('ascii'), False
     if k == 'BITSTRING':
         c = bytes(bits_content(v))
         # X.690 9.2: fragments of 1000 *contents* octets, i.e. the unused-bits octet plus 999 data octets;
